@@ -587,6 +587,13 @@ impl<'de> From<LazyValue<'de>> for OwnedLazyValue {
         if lv.inner.no_escaped() && raw.as_bytes()[0] == b'"' {
             return Self(LazyPacked::NonEscStrRaw(raw));
         }
+        // the literals are always kept in parsed form (a raw value is a number, string or container)
+        match raw.as_bytes()[0] {
+            b't' => return true.into(),
+            b'f' => return false.into(),
+            b'n' => return ().into(),
+            _ => {}
+        }
 
         Self(LazyPacked::Raw(LazyRaw {
             raw,
